@@ -602,13 +602,41 @@ func (ev *evaluator) expr(fr *frame, e ast.Expr) value {
 				out = append(out, ev.expr(fr, el))
 			}
 			return value{k: vList, list: out}
+		case *types.Map:
+			// a map literal nested in a folded table
+			mt := t.Underlying().(*types.Map)
+			z := zeroValue(mt.Elem())
+			out := value{k: vMap, zero: &z}
+			for _, el := range e.Elts {
+				kv, ok := el.(*ast.KeyValueExpr)
+				if !ok {
+					return unknown("map literal with a non-keyed element")
+				}
+				k := ev.expr(fr, kv.Key)
+				if k.k != vConst {
+					return unknown("non-constant key in a map literal")
+				}
+				out.mkey = append(out.mkey, k)
+				out.list = append(out.list, ev.expr(fr, kv.Value))
+			}
+			return out
 		case *types.Struct:
 			m := map[string]value{}
-			for _, el := range e.Elts {
+			st := t.Underlying().(*types.Struct)
+			for i, el := range e.Elts {
 				if kv, ok := el.(*ast.KeyValueExpr); ok {
 					if id, ok := kv.Key.(*ast.Ident); ok {
 						m[id.Name] = ev.expr(fr, kv.Value)
 					}
+				} else if i < st.NumFields() {
+					// positional form: T{a, b}
+					m[st.Field(i).Name()] = ev.expr(fr, el)
+				}
+			}
+			// fields not mentioned hold their zero value
+			for i := 0; i < st.NumFields(); i++ {
+				if _, has := m[st.Field(i).Name()]; !has {
+					m[st.Field(i).Name()] = zeroValue(st.Field(i).Type())
 				}
 			}
 			return rec(m)
